@@ -100,6 +100,36 @@ pub fn run(cases_path: &str, out_path: &str, tier: &str, seed: u64) {
         sink.put(rec("c06.certificate", json!({"key": k.name}), r.is_ok(), "certificate", json!({"outcome": r.class(), "detail": r.detail()})));
     }
 
+    // certifications over user ids and user attributes as they arrive from the wire, in every length form a foreign writer may have chosen
+    // (the signer and the verifier must frame the attribute with the same octets): self- and third-party certification, verified directly
+    // and inside a re-imported certificate
+    for k in keys.iter().take(2) {
+        for form in [1u8, 2, 5] {
+            for (what, n) in [("image", 40usize), ("unknown_type", 7), ("image", 300)] {
+                if (form == 1 && n + 20 >= 192) || (form == 2 && n + 20 < 192) { continue; }
+                let r = guard(|| -> Result<(), String> {
+                    let e = |x: pgp::errors::Error| x.to_string();
+                    let mut sub: Vec<u8> = if what == "image" { let mut v = vec![1u8, 16, 0, 1, 1, 0, 0, 0, 0, 0, 0, 0, 0, 0, 0, 0, 0]; v.extend((0..n).map(|i| i as u8)); v } else { let mut v = vec![99u8]; v.extend((0..n).map(|i| i as u8)); v };
+                    let l = sub.len();
+                    let mut body: Vec<u8> = match form { 1 => vec![l as u8], 2 => vec![((l - 192) >> 8) as u8 + 192, ((l - 192) & 0xff) as u8], _ => { let mut v = vec![255u8]; v.extend((l as u32).to_be_bytes()); v } };
+                    body.append(&mut sub);
+                    let wire = crate::wire::frame(true, 17, &[crate::wire::Chunk::Fixed(body.len())], &body, body.len(), false);
+                    let Some(Ok(pgp::packet::Packet::UserAttribute(ua))) = pgp::packet::PacketParser::new(&wire[..]).next() else { return Err("the attribute packet is not accepted".into()) };
+                    let sua = ua.sign(rng(seed), &k.sec.primary_key, &k.pubk.primary_key, &Password::empty()).map_err(e)?;
+                    sua.verify_bindings(&k.pubk.primary_key).map_err(|x| format!("verify_bindings of the certification just made: {x}"))?;
+                    let mut cert = k.pubk.clone();
+                    cert.details.user_attributes.push(sua);
+                    cert.verify_bindings().map_err(|x| format!("certificate verify_bindings: {x}"))?;
+                    let mut bin = Vec::new();
+                    pgp::ser::Serialize::to_writer(&cert, &mut bin).map_err(e)?;
+                    SignedPublicKey::from_bytes(&bin[..]).map_err(e)?.verify_bindings().map_err(|x| format!("certificate verify_bindings after export and import: {x}"))?;
+                    Ok(())
+                });
+                sink.put(rec("c06.user_attribute_forms", json!({"key": k.name, "length_form": form, "attribute": what, "n": n}), r.is_ok(), "certificate", json!({"outcome": r.class(), "detail": r.detail()})));
+            }
+        }
+    }
+
     let texts: Vec<&Value> = cases.iter().filter(|c| c["kind"] == "text").collect();
     texts.par_iter().for_each(|c| {
         let t = syms(&c["t"]);
